@@ -98,7 +98,9 @@ PATHS = ['/', '/a', '/a/', '/a/1', '/a/12', '/a/1/f.txt', '/a/x', '/a/x/f.txt', 
          '/w/caf%C3%A9', '/w/abc', '/w/%D0%BE%D1%82', '/n%D9%A3', '/n7',
          '/ci/v1', '/CI/V2', '/Ci/x',
          # longer than 512 characters as a whole, but the part below the static prefix '/s/' is within the limit
-         '/s/' + 'x' * 510]
+         '/s/' + 'x' * 510,
+         # file names beyond any length a static route serves (it still CLAIMS the path: nothing of lower priority may run)
+         '/s/' + 'x' * 513, '/a/' + 'y' * 700, '/s/d/' + 'z' * 70000]
 
 FALLBACK = 'fallback.txt'
 
@@ -170,6 +172,8 @@ class Model(object):
             if path.startswith(np) or (fb and path == np[:-1]):
                 rel = path[len(np):]
                 name = rel if rel in FILES else (FALLBACK if fb else None)
+                if len(rel) > 500 and fb:
+                    name = 'LONG'  # whether the fallback file stands in for an over-long name is not documented
                 statics.append(('static', i, k, name))
         return hit, sinks, statics
 
@@ -328,6 +332,10 @@ def conforms(exp, method, obs):
             return obs.code == 200 and obs.allow == ['GET'] and obs.body == b''
         if name is None:
             return obs.code == 404
+        if name == 'LONG':
+            if obs.code == 404:
+                return True
+            name = FALLBACK
         data = CONTENT[(exp[2], name)]
         if method == 'HEAD':
             return obs.code == 200 and obs.body == b'' and obs.clen == str(len(data))
@@ -616,9 +624,13 @@ class Subsets(_Base):
         for sbs in (True, False):
             yield {'sbs': sbs, 'ops': [{'k': 'sink', 'p': 0}, {'k': 'sink', 'p': 5}, {'k': 'sink', 'p': 6}], 'reqs': wide}
             yield {'sbs': sbs, 'ops': [{'k': 'sink', 'p': 6}, {'k': 'static', 'p': 0, 'fb': False}, {'k': 'sink', 'p': 5}], 'reqs': wide}
-            more = [[PATHS.index(p), m] for p in ('/ci/v1', '/CI/V2', '/Ci/x', '/s/' + 'x' * 510, '/s/f.txt') for m in ('GET', 'POST')]
+            more = [[PATHS.index(p), m] for p in ('/ci/v1', '/CI/V2', '/Ci/x', '/s/' + 'x' * 510, '/s/f.txt', '/s/' + 'x' * 513, '/a/' + 'y' * 700,
+                                                  '/s/d/' + 'z' * 70000) for m in ('GET', 'POST')]
             yield {'sbs': sbs, 'ops': [{'k': 'sink', 'p': 0}, {'k': 'sink', 'p': 7}, {'k': 'static', 'p': 2, 'fb': False}], 'reqs': more}
             yield {'sbs': sbs, 'ops': [{'k': 'static', 'p': 4, 'fb': True}, {'k': 'sink', 'p': 3}, {'k': 'sink', 'p': 7}], 'reqs': more}
+            # an older catch-all sink / static route behind the static route that claims the (over-long) path
+            yield {'sbs': sbs, 'ops': [{'k': 'sink', 'p': 0}, {'k': 'sink', 'p': 3}, {'k': 'static', 'p': 2, 'fb': False}, {'k': 'static', 'p': 1, 'fb': False}], 'reqs': more}
+            yield {'sbs': sbs, 'ops': [{'k': 'static', 'p': 0, 'fb': True}, {'k': 'sink', 'p': 1}, {'k': 'static', 'p': 4, 'fb': False}], 'reqs': more}
 
 
 SUITES = [Apps(), Subsets()]
